@@ -74,6 +74,16 @@ def handle {α} [Add α] [Neg α] [Mul α] [Div α] [BEq α] (c : Codec α) (w :
         | some x, some y => if x.eq y then "true" else "false"
         | _, _ => "absent")
     | _, _ => (w, "bad-request")
+  | ["objeq", a, b] =>
+    let dec (t : String) : Option (Obj α) := match t.splitOn "," with
+      | ["n", name, ds, dn] => do let n ← decName name; let d ← ds.toNat?; let k ← dn.toNat?; pure (.nuclide n d k)
+      | ["i", h] => do let h ← h.toNat?; let i ← w.get h; pure (.inventory i)
+      | ["d", ds] => ds.toNat?.map Obj.dataset
+      | ["f", t] => t.toNat?.map Obj.foreign
+      | _ => none
+    (w, match dec a, dec b with
+      | some x, some y => s!"{x.eq y} {x.ne y} {(nuclideHashKey x == nuclideHashKey y)}"
+      | _, _ => "bad-request")
   | ["reset"] => (emptyWorld, "done")
   | req =>
     match decOp c req with
